@@ -124,6 +124,9 @@ func searchIndex(p *binary.BinaryProtocol, idx int, elementWireType proto.WireTy
 	// packed list
 	cnt := 0
 	result := p.Read
+	if idx < 0 {
+		return p.Read, errNotFound
+	}
 	if isPacked {
 		// read length
 		length, err := p.ReadLength()
@@ -139,7 +142,13 @@ func searchIndex(p *binary.BinaryProtocol, idx int, elementWireType proto.WireTy
 			cnt++
 		}
 		result = p.Read
+		if p.Read >= start+length {
+			// idx >= len: nothing is left in the packed payload
+			return p.Read, errNotFound
+		}
 	} else {
+		// the cursor is on element 0; after skipping an element, exists tells whether another one follows
+		exists := true
 		// normal Type : [tag][(length)][value][tag][(length)][value][tag][(length)][value]....
 		for p.Read < len(p.Buf) && cnt < idx {
 			// don't move p.Read and judge whether readList completely
@@ -147,6 +156,7 @@ func searchIndex(p *binary.BinaryProtocol, idx int, elementWireType proto.WireTy
 				return 0, errNode(meta.ErrRead, "searchIndex: skip unpacked list element error.", err)
 			}
 			cnt++
+			exists = false
 			if p.Read < len(p.Buf) {
 				// don't move p.Read and judge whether readList completely
 				elementFieldNumber, _, n, err := p.ConsumeTagWithoutMove()
@@ -156,13 +166,17 @@ func searchIndex(p *binary.BinaryProtocol, idx int, elementWireType proto.WireTy
 				if elementFieldNumber != fieldNumber {
 					break
 				}
+				exists = true
 				if cnt < idx {
 					p.Read += n
 				}
 				result = p.Read + n
 			}
 		}
-
+		if !exists {
+			// idx >= len: no element follows the last one skipped
+			return p.Read, errNotFound
+		}
 	}
 
 	if cnt < idx {
